@@ -15,6 +15,10 @@ ZERO = z3.RealVal(0)
 _const_cache = {}
 
 
+# solver time budgets are wall-clock: a second, patient attempt of a scenario (driver) multiplies every budget by this factor
+PATIENCE = [1.0]
+
+
 class Unsupported(Exception):
     """an operation on symbolic data that the engine cannot encode -> run is INCONCLUSIVE"""
 
@@ -90,7 +94,7 @@ class Ctx:
     def check(self, f, timeout=30000):
         """decide validity of f under the path condition: 'unsat' (valid), 'sat' (+model), 'unknown'"""
         s = z3.Solver()
-        s.set("timeout", timeout)
+        s.set("timeout", int(timeout * PATIENCE[0]))
         s.add(self.pc)
         s.add(z3.Not(f))
         t = time.time()
@@ -111,7 +115,7 @@ class Ctx:
 
     def pc_sat(self, timeout=30000):
         s = z3.Solver()
-        s.set("timeout", timeout)
+        s.set("timeout", int(timeout * PATIENCE[0]))
         s.add(self.pc)
         t = time.time()
         r = str(s.check())
